@@ -1,9 +1,10 @@
 """C04 — Client only talks to a server whose host key it trusts.
 
 Lean: Model/HostTrust.lean (decision), Model/HostTrustMachine.lean (client trace machine), Lemmas/HostTrust*.lean,
-Props/C04.lean (accept_iff, accept_iff_default, revoked_wins, revoked_wins_full_false, no_auth_before_trust,
-liar_rejected, untrusted_fails_closed, bad_signature_fails_closed, ...), Gen/C04.lean regenerated from
-SSHOpenSSHCertificate.validate and _validate_openssh_host_certificate.
+Props/C04.lean (accept_iff, accept_iff_default, revoked_wins, revoked_never_used, revoked_wins_full_false (witness of
+the defect fixed by 6942731), no_auth_before_trust, liar_rejected, untrusted_fails_closed,
+bad_signature_fails_closed, ...), Gen/C04.lean regenerated from SSHOpenSSHCertificate.validate and
+_validate_openssh_host_certificate.
 Correspondence: full asyncssh.connect() of a real client against a real in-process server (generated known_hosts
 texts x server key/certificate variants x host/alias/addr/port x virtual clock x lying servers x packets injected in
 the clear) against the Lean driver: offered algorithms, decision, reason, callbacks, and the ordered trace
@@ -32,8 +33,10 @@ MANIFEST = {
             'and port), every application callback answer, every time and every host key blob, the key is accepted '
             'iff it is a listed, non-revoked key or a host-type certificate of a listed, non-revoked CA with '
             'valid_after <= now < valid_before whose principals are empty or name the host (accept_iff, '
-            'accept_iff_default); a revoked key or CA is rejected whatever else matches (revoked_wins; the '
-            'unrestricted form is refuted by a witness: a revoked key inside a certificate is accepted); in EVERY '
+            'accept_iff_default); a revoked key or CA is rejected whatever else matches and the key finally used is '
+            'never a revoked one (revoked_wins, revoked_never_used - re-proved against the regenerated list of '
+            'revocation look-ups; the behaviour before fix 6942731, a revoked key accepted inside a certificate, is '
+            'kept as a witness theorem and as an oracle case); in EVERY '
             'trace of the client machine, for any packet order the server chooses, each SERVICE_REQUEST / '
             'USERAUTH_REQUEST is preceded by an accepted host key and a verified signature over the exchange hash '
             '(no_auth_before_trust); under the ideal-signature hypothesis a server that cannot sign for the key it '
